@@ -38,7 +38,7 @@ def run(ctx):
     tie = tie_broken_sig(st, 'hml')
     for name, H in sorted(Hs.items()):
         jobs = []
-        for cfg in (CONFIGS if thorough else rng.sample(CONFIGS, 4)):
+        for cfg in (CONFIGS if thorough else rng.sample(CONFIGS[:-2], 3) + [rng.choice(CONFIGS[-2:])]):
             is_map = cfg['c'] == 'map'
             gen = lambda: hm_program(rng, 2 + rng.randint(0, 1), 3, is_map=is_map)
             jobs.append((cfg, gen(), 'random', n, ctx['seed'], ()))
